@@ -118,6 +118,10 @@ func (x *Exec) initState() *State {
 	x.initGhosts(st)
 	env := &Env{X: x, St: st, Old: st, Vars: x.ParamVals, OldVars: x.ParamVals, FC: x.FC, PkgPath: x.Pkg}
 	if x.FC != nil {
+		// "requires held(L)": the function is entered with L held by the caller
+		for _, r := range x.FC.Requires {
+			x.enterHeld(st, env, r.Expr)
+		}
 		for _, r := range x.FC.Requires {
 			st.Assume(x.evalBool(env, r.Expr))
 		}
@@ -294,4 +298,27 @@ func (x *Exec) applyLemma(st *State, env *Env, u *Expr, owner string) []*Obligat
 		st.Assume(x.evalBool(lenv, e.Expr))
 	}
 	return obls
+}
+
+func (x *Exec) enterHeld(st *State, env *Env, e *Expr) {
+	if e.Kind == "binary" && e.Op == "&&" {
+		x.enterHeld(st, env, e.Args[0])
+		x.enterHeld(st, env, e.Args[1])
+		return
+	}
+	if e.Kind == "call" && e.Args[0].Kind == "ident" && e.Args[0].Name == "held" && len(e.Args) == 2 {
+		v := x.eval(env, e.Args[1])
+		p, ok := v.(PtrV)
+		if !ok {
+			x.fail("held(): lock expression expected: %s", e)
+		}
+		m, _, ok := x.lockOwner(st, p)
+		if !ok {
+			x.fail("held(): not a lock: %s", e)
+		}
+		k := m.key()
+		st.Held[k] = TTrue
+		st.monObjs[k] = m
+		x.heldAtEntry[k] = true
+	}
 }
